@@ -145,11 +145,6 @@ func c06One(a *ChildArgs, idPrefix string, sql string, composed bool, pick int) 
 		if err != nil {
 			continue
 		}
-		if fam == "cli.SQLFormatter" && composed {
-			// the CLI formatter has many open findings (see known_findings.jsonl); it is judged on the
-			// deterministic catalogue and corpus layers only, where its finding signatures are enumerable
-			continue
-		}
 		y, err := safeSerialise(s, sql, t1)
 		report := func(clause, sub, detail string) {
 			failedFamilies[fam] = true
@@ -157,7 +152,7 @@ func c06One(a *ChildArgs, idPrefix string, sql string, composed bool, pick int) 
 			if composed {
 				id = "C06/composed/" + fam + "#" + clause + "/" + sub
 			}
-			if fam == "cli.SQLFormatter" {
+			if fam == "cli.SQLFormatter" && !composed {
 				id = "C06/cli.SQLFormatter#" + clause + "@" + lastSegments(sub, 2)
 			}
 			a.Rec.Viol(id, clause, detail, map[string]interface{}{"sql": sql, "serialiser": s.Name, "output": y})
